@@ -79,6 +79,7 @@ def sched_case(case):
         rec = Rec17()
         res = H.run_sim(wd, schedule=list(sched), stop_after=stop, recorder=rec)
         rc, rl = read_restart(wd) if os.path.exists(os.path.join(wd, "restart.toml")) else (None, None)
+        out["aliased"] = list(res.get("aliased_units") or [])
         out["segs"].append({"c0": 0, "T": T, "status": res["status"], "completed": res.get("completed"), "submitted": res.get("submitted"),
                             "cstep": res.get("cstep"), "in_flight": res.get("in_flight"), "restart_cstep": rc,
                             "restart_locked": len(rl) if rl is not None else None, "after": rec.after})
@@ -272,6 +273,10 @@ def run(ctx):
             ctx.violation(f"harness failure on scheduler case {case}: {res[:300]}", {"case": case, "error": res}, found_input=False)
             continue
         n_intf, W, T, sched, stop, raise_to = case
+        if res.get("aliased"):
+            ctx.violation(f"C17 statement fails on the implementation: the scheduler handed the SAME unit object to the task runner more than once "
+                          f"(submissions {res['aliased']} with {W} workers, {T} steps): units still queued in the runner alias each other, so a unit can be "
+                          f"executed with another unit's content and a submitted unit not at all", {"case": case, "aliased": res["aliased"]}, found_input=True)
         used = 0
         for si, seg in enumerate(res["segs"]):
             if seg["status"] == "none":
